@@ -16,6 +16,10 @@ in its 16 bit form (a page number with >= 65536 cached pages, n_subpages wrapped
 reads the unrepaired statements from /repo's cache.c and search.c - C17-D7 (a pass that starts at a page with sub-code
 0x3F7F: search.c puts the forward stop position at (P, 0), the walk starts at the most recently used subpage of P;
 subpages of P are not searched in that pass).  Once fixes/C17-turn-3f7f.diff is applied that excuse is off by itself.
+Round 5: a third one, C17-D8 (`fwd-continue-bol`): search_page_fwd hands ure_exec flags = 0 when a forward search continues
+inside a row, so `^` matches at the cursor; excused only by its exact witness (see Judge.op).  Regular expressions with
+`^` / `$` at the row borders (`gen_anchor_case`) are searched by the real code AND by the model (mode `ure` of the `search`
+op: the search model over the Lean model of ure.c), so the flags search.c computes for ure_exec are in the correspondence.
 The findings D1 (ure restart), D3 (sub-page 0 in the statistics), D4 (start page skipped), D5 (0x3F7F wildcard), D6 (ure
 accepting state forgotten) and D2 at 256 pages are repaired in /repo; the oracle has no excuse for them any more: if
 one of those behaviours returns it is a VIOLATION.
@@ -89,8 +93,9 @@ class Pass:
         self.dir, self.start, self.fresh = d, start, fresh
         self.hits, self.mutated, self.snapshot = [], False, None
         self.alt_start = None
+        self.bol_pages = set()      # pages with a C17-D8 hit in this pass (occurrence count not judged)
 
-KNOWN_CAUSES = ("nsub-wrap", "turn-on-3f7f")
+KNOWN_CAUSES = ("nsub-wrap", "turn-on-3f7f", "fwd-continue-bol")
 
 def d7_unrepaired():
     """True while /repo has finding C17-D7 (translate/gen_search.py reads the two statements from the source text).
@@ -130,6 +135,7 @@ class Judge:
         self.tab = {S.fnv("-"): {}}
         self.dump, self.dirty = None, True
         self.srch, self.cur, self.cur_start = None, None, None
+        self.last_hit = None
         self.stats = {"hits": 0, "passes": 0, "notfound": 0}
         self.d7 = d7_unrepaired()
         self.f17 = store_repaired()      # repaired store rule: C17-D2 ("nsub-wrap") is no excuse any more
@@ -235,7 +241,7 @@ class Judge:
         if complete and ps.fresh and ps.dir > 0:
             for k in act:
                 n_act = sum(1 for kk, _ in ps.hits if kk == k)
-                if k in m and n_act != len(m[k]):
+                if k in m and n_act != len(m[k]) and k not in ps.bol_pages:
                     self.bad("occurrences: page %x.%x: %d occurrences reported, text has %d" % (k + (n_act, len(m[k]))))
 
     # -- one op -------------------------------------------------------------------------------------------
@@ -260,6 +266,7 @@ class Judge:
         elif t[0] == "search":
             self.close_pass(False)
             self.srch = None
+            self.last_hit = None
             if o == "ok null": return
             pgno, subno, cf, rg = int(t[1], 0), int(t[2], 0), int(t[3], 0) != 0, int(t[4], 0) != 0
             raw = bytes.fromhex(t[5]) if t[5] != "-" else b""
@@ -311,11 +318,29 @@ class Judge:
                         if not os_ or os_ != list(range(os_[0], os_[-1] + 1)):
                             self.bad("highlight: cells %s of page %x.%x are not one stretch of text" % (ctx["hl"][:40], p, s))
                         elif not self.srch["rx"].fullmatch(text, os_[0], os_[-1] + 1):
+                            # C17-D8: search_page_fwd hands ure_exec flags = 0 whatever the column the text starts in
+                            # (its `flags` variable follows the END of the haystack): when a forward search continues
+                            # on the page of the previous hit, `^` matches at the cursor in the middle of a row.
+                            # Witness: forward call, the previous hit (same page) ends exactly where the
+                            # stretch begins, the stretch is not at a row start, and it IS a match of the pattern on the
+                            # text cut at the cursor (where `^` sees a beginning).  Nothing else is excused.
+                            prev = self.last_hit      # the cursor: end of the stretch highlighted last, either direction
+                            cut = text[os_[0]:]
+                            if (ps.dir > 0 and self.srch["regexp"] and "^" in self.srch["pat"] and prev and prev[0] == k and prev[1]
+                                    and prev[1][1] == os_[0] and text[os_[0] - 1] != "\n"
+                                    and self.srch["rx"].fullmatch(cut, 0, os_[-1] + 1 - os_[0])):
+                                self.explained("fwd-continue-bol", "page %x.%x: forward search continued inside a row reports %r at the cursor as a match of a pattern with `^`" % (p, s, text[os_[0]:os_[-1] + 1]))
+                                ps.bol_pages.add(k)
+                                ps.hits.append((k, (os_[0], os_[-1] + 1)))
+                                self.last_hit = (k, (os_[0], os_[-1] + 1))
+                                return
                             self.bad("highlight: page %x.%x highlighted %r which is not an occurrence" % (p, s, text[os_[0]:os_[-1] + 1]))
                         else:
                             ps.hits.append((k, (os_[0], os_[-1] + 1)))
+                            self.last_hit = (k, (os_[0], os_[-1] + 1))
                             return
                 ps.hits.append((k, None))
+                self.last_hit = None
             elif st == 0:
                 self.stats["notfound"] += 1
                 if ctx.get("dir") != "0": self.bad("state: direction not cleared after NOT_FOUND")
@@ -605,6 +630,75 @@ BORDER_REGEXES = [("aab", "aaab", "aaaab"), ("0080", "00080"), ("ababc", "ababab
                   ("aa+b", "aacaab", "acaaab"), ("ab(ab)+c", "abcababc", "ababxababc"), ("[01]0[01]8", "01008", "000018"),
                   ("co(co)+a", "cocxcococa"), ("x[xy]y", "xxxy", "xyxyy")]
 
+# ----------------------------------------------------------------------------------------------------------
+# regular expressions with the anchors `^` / `$` at row starts / row ends, both directions (round 5; seeded C17-b).
+# search.c computes the flags it hands to ure_exec while it builds the haystack: forward URE_NOTBOL when the text begins
+# inside a row (continued search), backward URE_NOTEOL when the text is cut inside a row, reset at every row separator,
+# and URE_NOTBOL for every repeated ure_exec behind a match.  None of the other families has an anchored pattern, so
+# those flags were never observable.  Texts: the word right aligned (ends in column 39 = in front of the row separator),
+# at column 0 (behind the separator), in the middle (decoy for an anchored pattern), plain pages.
+# Kept OUT of the family, because they run into recorded deviations of ure.c (known_findings.C17ure.json), not into
+# search.c: patterns that match the empty string (U6), overlapping symbols (U5), an occurrence ending in column 39 of
+# row 23 = end of the text, and two adjacent occurrences at a row end ("zapzap": U8, `$` look-ahead at the end of a cut
+# text ignores URE_NOTEOL), enlarged characters (empty lines: U9), more than one occurrence of a `^` pattern per page.
+# ----------------------------------------------------------------------------------------------------------
+ANCHOR_WORDS = ["zap", "News", "ab", "here", "Sport", "x1", "end"]
+
+def anchor_pattern(rng, w):
+    """-> (regexp, where): where = 'eol' / 'bol' / 'both' says at which row border the word has to stand"""
+    r = rng.random()
+    alt = rng.choice(["qq", "mm", "vv"])
+    if r < 0.40: return rng.choice([w + "$", w + "$", "(%s|%s)$" % (w, alt), w[:-1] + "[" + w[-1] + "]$"]), "eol"
+    if r < 0.50: return w + " $", "eol-blank"
+    if r < 0.85: return rng.choice(["^" + w, "^" + w, "^(%s|%s)" % (alt, w), "^[" + w[0] + "]" + w[1:]]), "bol"
+    return "^" + w + " +" + w + "$", "both"
+
+def anchor_row(rng, w, where, hit):
+    """one row text of exactly 40 characters; `hit` = the anchored pattern has to match it"""
+    fill = rng.choice(NEUTRAL)
+    if where == "both":
+        if hit: return w + " " * (40 - 2 * len(w)) + w
+        return rng.choice([w + " " * (39 - 2 * len(w)) + w + " ", " " + w + " " * (39 - 2 * len(w)) + w])
+    if where == "eol-blank":
+        if hit: return (fill + " " + w).ljust(40)[:40] if rng.random() < 0.5 else w.ljust(40)
+        return (fill + " " + w + " " + fill).ljust(40)[:40]
+    if where == "eol":
+        if hit: return (rng.choice(["", fill + " ", w + " " + fill + " "]) + w).rjust(40)
+        return rng.choice([(w + " " + fill).rjust(40), (" " + w).ljust(40), (w + fill).ljust(40), (fill + " " + w + " ").rjust(40)])
+    if hit: return (w + rng.choice(["", " " + fill, fill])).ljust(40)
+    return rng.choice([(" " + w).ljust(40), (fill + w).ljust(40), w.rjust(40), (fill + " " + w).rjust(40)])
+
+def gen_anchor_case(rng, mode="regex"):
+    w = rng.choice(ANCHOR_WORDS)
+    pat, where = anchor_pattern(rng, w)
+    casefold = rng.random() < 0.25
+    pgnos = sorted(set(pick_pgnos(rng, rng.randint(1, 6), False)))
+    rng.shuffle(pgnos)
+    c, puts = [], []
+    for p in pgnos:
+        r = rng.random()
+        rows = {}
+        if r < 0.50:                         # the page matches: one row (two for `$` patterns now and then)
+            ys = rng.sample(range(1, 23), 2 if (where.startswith("eol") and rng.random() < 0.3) else 1)
+            for y in ys: rows[y] = anchor_row(rng, w.upper() if casefold and rng.random() < 0.5 else w, where, True)
+        elif r < 0.80:                       # the word is there, but not at the row border
+            rows[rng.randint(1, 23)] = anchor_row(rng, w, where, False)
+        if rng.random() < 0.4:
+            y = rng.randint(1, 23)
+            if y not in rows: rows[y] = filler(rng, rng.randint(1, 3))[:40]
+        q = Put(p, rng.choice([0, 0, 0, 1, 2]), sorted(rows.items()))
+        puts.append(q); c.append(q)
+    c.append("dump")
+    p, s = pick_start(rng, pgnos, puts)
+    if not (0x100 <= p <= 0x8FF): p = 0x100
+    c.append("search 0x%x %s %d 1 %s %s" % (p, ("0x%x" % s) if s >= 0 else str(s), casefold, S.pat_hex(pat), mode))
+    d = rng.choice([1, -1, -1])
+    for _ in range(len(pgnos) + rng.randint(2, 5)):
+        if rng.random() < 0.05: d = -d
+        c.append("next %d" % d)
+    c += ["dump", "endsearch"]
+    return c
+
 # regular expressions: implementation + oracle only (the model takes the matcher as a parameter)
 REGEXES = [("a.b", "a+b axb"), ("[0-9]+", "12:30 100%"), ("Sp(ort|iel)", "Sport Spiel"), ("b[ae]r", "bar ber"), ("fo*", "f foo"),
            ("x|zz", "zz"), ("[A-Z][a-z]+", "Wetter"), ("1\\.5", "1.5"), ("t.l.t", "teletext"), ("(ab)+", "abab")]
@@ -632,22 +726,27 @@ def gen_regex_case(rng):
 class C17(verif.Spec):
     prop = "C17"
     comp = "search"
-    lean_modules = ["ZvbiModel.Props.C17", "ZvbiModel.Props.C17Ure"]
+    lean_modules = ["ZvbiModel.Props.C17", "ZvbiModel.Props.C17Ure", "ZvbiModel.Props.C17Pass"]
     harness = "search_harness"
     timeout_per_case = 8.0
-    partial_note = ("the regular expression engine ure.c and the page formatter are parameters of the model (ure.c is judged by "
-                    "the oracle against Python re, and for literals by the correspondence against the leftmost-occurrence matcher); "
-                    "search_exact is proved for the first forward call of a pass (SUCCESS = first matching page in pass order, "
-                    "NOT_FOUND iff nothing matches), not yet for continued / backward passes as one statement; every statement about "
-                    "reachable caches is stated for both source shapes of _vbi_cache_put_page (translate/gen_cache.py "
+    partial_note = ("the page formatter is a parameter of the model; the regular expression engine ure.c is a parameter of the search "
+                    "THEOREMS (ure.c has its own model and theorems, Props/C17Ure; in the correspondence the search model runs over "
+                    "it for the anchored regular expressions of mode `ure`, over the proved leftmost-occurrence matcher for literals; "
+                    "the oracle judges ure.c against Python re); search_exact is proved for whole FORWARD passes (search_exact_pass: "
+                    "over any number of successive calls the pages reported are exactly the matching pages, in pass order, each in "
+                    "one block, then NOT_FOUND), not for backward passes and direction changes; every statement about reachable "
+                    "caches is stated for both source shapes of _vbi_cache_put_page (translate/gen_cache.py "
                     "putReplacesAllVersions): as found it excludes C17-D2 explicitly (NoWrap: fewer than 65536 cached pages per page "
                     "number), with fixes/C10-put-replaces-all-versions.diff NoWrap is a theorem (nowrap_repaired)")
     assumptions = ["A1 page formatting (vbi_format_vt_page) is a function of the cached page (no Level 2.5 look-ups for the generated pages)",
                    "A2 no cache page is referenced by the application while searching, memory limit (1 GiB) not reached, page type never 'clock page'",
                    "A3 unicode_tolower is the ASCII mapping on the generated alphabet",
                    "A4 start page number given to vbi_search_new lies in 0x100..0x8FF (otherwise cache_network_page_stat asserts)"]
-    open_statements = ["Zvbi.Search.search_exact_full (whole-pass exactness over repeated calls; proved per call: search_exact_first_call, "
-                       "search_exact_first_success, search_exact_not_found, search_success_sound)"]
+    open_statements = ["Zvbi.Search.search_exact_full for BACKWARD passes and passes with direction changes (forward passes are proved: "
+                       "Props/C17Pass search_exact_pass / search_exact_pass_repaired = soundness, completeness and order over any "
+                       "number of successive forward calls; missing: the same induction over search_page_rev - its cursor cuts the "
+                       "text in front of the previous occurrence, `revMatches` reports the LAST occurrence - and the stop positions "
+                       "a direction change installs)"]
     _a5 = ("A5 NoWrap: fewer than 65536 pages are cached under one page number (C17-D2, uint16_t n_subpages) - an assumption only "
            "while _vbi_cache_put_page has the shape with finding F17 (putReplacesAllVersions = false)")
     _open_walk = ("Zvbi.Search.walk_complete_full false (every cached page visited in every sweep after EVERY store history, source "
@@ -695,6 +794,10 @@ class C17(verif.Spec):
             kinds.append(k)
         for _ in range(80 if tier == "quick" else 600):       # literal patterns with borders / self-overlap
             raw.append(gen_border_case(rng)); kinds.append("border")
+        # regular expressions with `^` / `$` at the row borders, mode `ure`: code, MODEL (search model over the ure.c model:
+        # the flags search.c computes for ure_exec are compared) and oracle
+        for _ in range(60 if tier == "quick" else 250):
+            raw.append(gen_anchor_case(rng, "ure")); kinds.append("anchor")
         cases = S.resolve(raw, self.run_h)
         for c, k in zip(cases, kinds): self.remember(c, k)
         return cases
@@ -731,6 +834,7 @@ class C17(verif.Spec):
         if not ctx["replay"]:
             raw = [gen_regex_case(rng) for _ in range(80 if ctx["tier"] == "quick" else 600)]
             raw += [gen_border_case(rng, regexp=True) for _ in range(40 if ctx["tier"] == "quick" else 300)]
+            raw += [gen_anchor_case(rng) for _ in range(40 if ctx["tier"] == "quick" else 150)]
             # replays written for the decoder harness (dec format: `search <pgno-hex> <subno-hex> <cf> <re> <pattern>`),
             # e.g. the regular expressions that crashed / leaked in ure_compile: run them here against a small cache
             for f, lines in verif.corpus_cases(self.prop):
